@@ -1,19 +1,25 @@
 package main
 
+import "time"
+
 // Minimisation: bounded, class-preserving. A candidate is accepted only if Check
 // fails with the same class. Because replay lists tolerate any code path (missing
 // decisions are 0 = baseline policy, out-of-range values wrap), every candidate is
 // a valid schedule, and an accepted candidate is re-recorded exactly by Ctx.Run.
 
 type minimiser struct {
-	p      *Prop
-	class  string
-	budget int
-	tries  int
+	p        *Prop
+	class    string
+	budget   int
+	tries    int
+	deadline time.Time
 }
 
 func (m *minimiser) fails(t *Trial) (*Trial, bool) {
-	if m.tries >= m.budget {
+	// bounded in re-executions and in wall clock (the clock only decides when to stop simplifying;
+	// whatever has been accepted by then is a complete, exactly replayable failing trial)
+	if m.tries >= m.budget || time.Now().After(m.deadline) {
+		m.tries = m.budget
 		return nil, false
 	}
 	m.tries++
@@ -46,7 +52,7 @@ func totalNonZero(t *Trial) int {
 
 // minimise returns a simpler failing trial (never nil if t itself fails).
 func minimise(p *Prop, t *Trial, class string, budget int) (*Trial, int) {
-	m := &minimiser{p: p, class: class, budget: budget}
+	m := &minimiser{p: p, class: class, budget: budget, deadline: time.Now().Add(60 * time.Second)}
 	best, ok := m.fails(t)
 	if !ok {
 		return t, m.tries
